@@ -139,10 +139,33 @@ Definition scope_entered (sh : shape) (fin : image) (sc : scope) : bool :=
 
 Definition scopes (sh : shape) : list scope := SPlan :: map SBlock (seq 0 (length (sh_blocks sh))).
 
-(* R2 also covers: "deferred groups are skipped when a block had failed / recovery short-circuits to End" *)
-Definition deferred_missing (d : devs) (sh : shape) (fin : image) : list scope :=
+(* R2 also covers deferred groups that are SKIPPED (never a Failed group that is treated as passed): the repair sends
+   Recovery straight to End - a block, the pre / continuous / post group of a Running block (fixBlock then fails the
+   block) or a plan-level pre / continuous / post group is durably Failed in the crash image, or the plan's bypass
+   group is Completed - so PlanDeferredChecks / BlockDeferredChecks are never reached; or
+   the scope is a block that is already finished in the crash image (ExecuteBlock pops it). *)
+Definition short_circuits (sh : shape) (I : image) : bool :=
+  existsb (fun b => status_eqb (cst I (OBlock b)) Failed
+                    || (status_eqb (cst I (OBlock b)) Running
+                        && existsb (fun g => grp_present sh (SBlock b) g && status_eqb (cst I (OChecks (SBlock b) g)) Failed)
+                                   [GPre; GCont; GPost]))
+          (seq 0 (length (sh_blocks sh)))
+  || existsb (fun g => grp_present sh SPlan g && status_eqb (cst I (OChecks SPlan g)) Failed) [GPre; GCont; GPost]
+  || (grp_present sh SPlan GBypass && status_eqb (cst I (OChecks SPlan GBypass)) Completed).
+
+Definition deferred_skip_excused (d : devs) (sh : shape) (I : image) (sc : scope) : bool :=
+  dev_R2 d && (short_circuits sh I || match sc with SBlock b => finished I (OBlock b) | SPlan => false end).
+
+Definition deferred_missing (d : devs) (sh : shape) (I fin : image) : list scope :=
   filter (fun sc => grp_present sh sc GDeferred && scope_entered sh fin sc
-                    && negb (finished fin (OChecks sc GDeferred)) && negb (dev_R2 d)) (scopes sh).
+                    && negb (finished fin (OChecks sc GDeferred)) && negb (deferred_skip_excused d sh I sc)) (scopes sh).
+
+(* a Completed block was bypassed, or none of its pre / continuous / post / deferred groups is Failed *)
+Definition block_consistent (sh : shape) (fin : image) (b : nat) : bool :=
+  negb (status_eqb (cst fin (OBlock b)) Completed)
+  || (grp_present sh (SBlock b) GBypass && status_eqb (cst fin (OChecks (SBlock b) GBypass)) Completed)
+  || forallb (fun g => negb (grp_present sh (SBlock b) g && status_eqb (cst fin (OChecks (SBlock b) g)) Failed))
+             [GPre; GCont; GPost; GDeferred].
 
 (* --- all clauses; codes of the failing ones --- *)
 Definition obj_code (o : obj) : nat :=
@@ -166,7 +189,8 @@ Definition converges_codes (d : devs) (sh : shape) (I : image) (tr : list event)
             [13; if plan_consistent sh fin then 0 else 1;
                  if forallb (action_consistent fin) (all_objs sh) then 0 else 1;
                  if forallb (times_ordered d fin) (all_objs sh) then 0 else 1])
-      ++ match deferred_missing d sh fin with [] => [] | _ :: _ => [14] end
+      ++ match deferred_missing d sh I fin with [] => [] | _ :: _ => [14] end
+      ++ (if forallb (block_consistent sh fin) (seq 0 (length (sh_blocks sh))) then [] else [17])
       ++ (if determined && negb (status_eqb (cst fin OPlan) verdict) then [15] else [])
   end.
 
@@ -176,7 +200,7 @@ Definition mon_converges (d : devs) (sh : shape) (I : image) (tr : list event) (
 (* [0] holds | the codes: 10 no release; 11 plan not terminal; 12 k: an object of kind k left Running with no known
    explanation; 13 p a t: inconsistent (plan rule / action rule / start <= end; all 0: a sequence rule); 14 a deferred group of an entered scope never ran;
    15 outcome differs from the uninterrupted run; 16 the crash image shows a started plan as NotStarted: it will never
-   be resumed *)
+   be resumed; 17 a Completed block holds a Failed check group *)
 Definition mon_converges_diag (d : devs) (sh : shape) (I : image) (tr : list event) (verdict : status) (determined : bool)
   : list nat :=
   match converges_codes d sh I tr verdict determined with [] => [0] | l => l end.
